@@ -32,7 +32,12 @@ pub fn dir_digest(dir: &Path) -> String {
                 out.push((format!("{rel}/"), Vec::new()));
                 walk(base, &p, out);
             } else {
-                out.push((rel, std::fs::read(&p).unwrap_or_default()));
+                // content and permission bits (an executable must stay executable)
+                use std::os::unix::fs::PermissionsExt;
+                let mode = std::fs::metadata(&p).map(|m| m.permissions().mode() & 0o777).unwrap_or(0);
+                let mut data = std::fs::read(&p).unwrap_or_default();
+                data.extend_from_slice(format!("\u{0}mode={mode:o}").as_bytes());
+                out.push((rel, data));
             }
         }
     }
@@ -47,6 +52,19 @@ pub fn dir_digest(dir: &Path) -> String {
         }
     }
     format!("{h:016x}")
+}
+
+/// The files of the app fixture (also of the model of its private copy): contents and modes.
+fn write_fixture_files(dir: &Path) -> std::io::Result<()> {
+    use std::os::unix::fs::PermissionsExt;
+    std::fs::create_dir_all(dir.join("sub dir"))?;
+    std::fs::create_dir_all(dir.join("bin"))?;
+    std::fs::write(dir.join("app.txt"), "fixture app\n")?;
+    std::fs::write(dir.join("sub dir/ünï.bin"), [0u8, 159, 146, 150])?;
+    std::fs::write(dir.join("bin/web"), "#!/bin/sh\nexec sleep 1\n")?;
+    std::fs::set_permissions(dir.join("bin/web"), std::fs::Permissions::from_mode(0o755))?;
+    std::fs::write(dir.join("bin/secret.key"), "k")?;
+    std::fs::set_permissions(dir.join("bin/secret.key"), std::fs::Permissions::from_mode(0o600))
 }
 
 /// The in-place part of the scripted app-dir preprocessor (also applied to the model copy).
@@ -302,8 +320,7 @@ pub fn run_once(s: &Scenario, scratch: &Path) -> Result<RunResult, String> {
     for d in [&stub, &tmp, &fixture.join("sub dir"), &path_dir] {
         std::fs::create_dir_all(d).map_err(io)?;
     }
-    std::fs::write(fixture.join("app.txt"), "fixture app\n").map_err(io)?;
-    std::fs::write(fixture.join("sub dir/ünï.bin"), [0u8, 159, 146, 150]).map_err(io)?;
+    write_fixture_files(&fixture).map_err(io)?;
     if s.fixture_uncopyable {
         std::os::unix::fs::symlink("does/not/exist", fixture.join("broken-link")).map_err(io)?;
     }
@@ -343,8 +360,7 @@ pub fn run_once(s: &Scenario, scratch: &Path) -> Result<RunResult, String> {
             let model = scratch.join("model-copy");
             let _ = std::fs::remove_dir_all(&model);
             std::fs::create_dir_all(model.join("sub dir")).map_err(io)?;
-            std::fs::write(model.join("app.txt"), "fixture app\n").map_err(io)?;
-            std::fs::write(model.join("sub dir/ünï.bin"), [0u8, 159, 146, 150]).map_err(io)?;
+            write_fixture_files(&model).map_err(io)?;
             std::fs::write(model.join("added-by-preprocessor.txt"), content).map_err(io)?;
             preprocessor_edit(&model, n.cfg.preprocessor_edit).map_err(io)?;
             expected_pre.insert(format!("{}#{}", content, n.cfg.preprocessor_edit), dir_digest(&model));
